@@ -390,6 +390,16 @@ Section Admin.
     destruct (run repaired s1 r) as [s2 l] eqn:E2. cbn [snd] in *. constructor; assumption.
   Qed.
 
+  (* what is not even a command (the outer json.Unmarshal failed: not JSON, or a member of the wrong type) is
+     refused with the plain error and changes nothing - in every variant of the code *)
+  Lemma undecodable_is_refused fx s : step fx s None = (s, Err e_bad).
+  Proof. reflexivity. Qed.
+
+  (* an error is reported as the JSON object {"error": <text>} *)
+  Lemma error_reply_is_error_object t :
+    render repaired (Err t) = Some (print (JObj [(bytes_of "error", JStr t)])).
+  Proof. reflexivity. Qed.
+
   (* ---- the busy window: what the handler takes it answers; what arrives while it is busy is dropped *)
   Notation trun := (trun dec_dest dec_stream api).
   Notation tstep := (tstep dec_dest dec_stream api).
@@ -463,6 +473,29 @@ Section Admin.
       rewrite rwc_delete_other; [exact Hs| |]; apply beqb_false_neq; assumption.
   Qed.
 
+  (* delete-all (which = "all" or the reserved id "deleteAll") re-creates the control connection's rule in the
+     same step, whatever the table held before - even a rule that an earlier "add" had put under that id *)
+  Definition c_delete_dest (w : bytes) : option command := Some (mkc k_delete k_destination w None).
+
+  Lemma delete_all_recreates_api_rule s w :
+    w = k_all \/ w = k_deleteAll ->
+    has_api (fst (step repaired s (c_delete_dest w))) /\
+    forall id, id <> k_apiRule -> dlk id (dests (fst (step repaired s (c_delete_dest w)))) = None.
+  Proof.
+    intros Hw. unfold has_api, AdminApi.step, c_delete_dest.
+    cbn [verb what which rule fx_nil fx_quote fx_delall repaired andb].
+    change (beqb k_delete k_healthcheck) with false. change (beqb k_destination k_destination) with true.
+    change (beqb k_delete k_add) with false. change (beqb k_delete k_delete) with true. cbv iota.
+    rewrite is_nil_api.
+    assert (E : is_nil w = false /\ (beqb w k_all || beqb w k_deleteAll) = true).
+    { destruct Hw as [->| ->]; split; reflexivity. }
+    destruct E as [E1 E2]. rewrite E1, E2. cbn [fst dests].
+    split; [apply rwc_add_api; reflexivity|].
+    intros id Hid. unfold rwc_add, rwc_delete. cbn [d_id api_rule].
+    change (beqb k_apiRule k_deleteAll) with false. change (beqb k_deleteAll k_deleteAll) with true. cbv iota.
+    rewrite (lookup_insert_neq beqb beqb_spec); [reflexivity|exact Hid].
+  Qed.
+
   Lemma final_keeps_api cs : forall s,
     has_api s -> forallb (fun c => negb (sets_api_rule c)) cs = true -> has_api (final repaired s cs).
   Proof.
@@ -514,6 +547,13 @@ Proof.
   - destruct (slk n (streams s)); cbn [snd fst].
     + left. split; [reflexivity|apply wf_print].
     + right. left. split; [reflexivity|eexists; reflexivity].
+Qed.
+
+(* an HTTP request answered with anything but 200 leaves both tables as they were *)
+Lemma http_error_keeps_rules s q : fst (snd (hstep s q)) <> 200 -> fst (hstep s q) = s.
+Proof.
+  destruct q as [[r|t]|id| |id|[r|t]|n| |n]; cbn [hstep snd fst]; intros H; try reflexivity; try (exfalso; apply H; reflexivity).
+  destruct (slk n (streams s)); cbn [fst snd] in *; [exfalso; apply H; reflexivity|reflexivity].
 Qed.
 
 (* ---- what the pinned tree did (F11a, F11b, F11c): witnesses, for any oracle *)
